@@ -173,11 +173,13 @@ where
     pub t: T,
     pub s: String,
 }
+#[cfg(feature = "generic-subjects")]
 #[derive(Clone, Debug, PartialEq, BorshSerialize, BorshDeserialize, SplBorshVariableLenPack)]
 pub struct GInline<T: BorshSerialize + BorshDeserialize, U: BorshSerialize + BorshDeserialize = u8> {
     pub t: T,
     pub u: Option<U>,
 }
+#[cfg(feature = "generic-subjects")]
 #[derive(Clone, Debug, PartialEq, BorshSerialize, BorshDeserialize, SplBorshVariableLenPack)]
 pub struct GConst<const N: usize> {
     pub a: [u8; N],
@@ -288,8 +290,11 @@ pub fn run(ctx: &Ctx) -> Report {
             &format!("({}, ({}, ({}, tt)))", s1_val, e1_val, oo_val), to_coq);
         let gw = GWhere::<u32> { t: rng.next_u64() as u32, s: gen_string(&mut rng) };
         check_packer(&mut rep, "GWhere<u32>", &gw, &mut rng, "TPair TU32 TBytes", &format!("({}, {})", gw.t, e_str(&gw.s)), to_coq);
+        #[cfg(feature = "generic-subjects")]
+        {
         let gi = GInline::<String> { t: gen_string(&mut rng), u: if rng.chance(1, 2) { Some(rng.byte()) } else { None } };
         check_packer(&mut rep, "GInline<String>", &gi, &mut rng, "TPair TBytes (TOption TU8)", &format!("({}, {})", e_str(&gi.t), e_opt(gi.u.map(|x| x.to_string()))), to_coq);
+        }
         if k % 10 == 0 {
             check_packer(&mut rep, "OneVariant", &OneVariant::Only, &mut rng, "", "", false);
             check_packer(&mut rep, "OnePhantom<u64>", &OnePhantom::<u64>::Only(std::marker::PhantomData), &mut rng, "", "", false);
@@ -298,8 +303,11 @@ pub fn run(ctx: &Ctx) -> Report {
         }
         let mv = match rng.below(4) { 0 => ManyVariants::A, 1 => ManyVariants::B(rng.byte()), 2 => ManyVariants::C { x: rng.next_u64() as u16, s: gen_string(&mut rng) }, _ => ManyVariants::D };
         check_packer(&mut rep, "ManyVariants", &mv, &mut rng, "", "", false);
+        #[cfg(feature = "generic-subjects")]
+        {
         let gc = GConst::<2> { a: [rng.byte(), rng.byte()], s: gen_string(&mut rng) };
         check_packer(&mut rep, "GConst<2>", &gc, &mut rng, "TPair TU8 (TPair TU8 TBytes)", &format!("({}, ({}, {}))", gc.a[0], gc.a[1], e_str(&gc.s)), to_coq);
+        }
     }
     // ---------------- realloc_and_pack histories on runtime-layout accounts
     let n_coq = ctx.scale(250, 3000);
